@@ -89,7 +89,7 @@ def slice_elems(b, arg):
             return None
         r = ds[0][3]
         if r["rv"] == "agg" and r["kind"] == "array":
-            return [L.named_source(b, o) or F.fmt_expr(b.expr(o)) for o in r["ops"]]
+            return [L.role(b, o) for o in r["ops"]]
         if r["rv"] in ("cast", "use"):
             p = F.op_place(r["o"])
         elif r["rv"] == "ref":
@@ -192,7 +192,9 @@ def run(ctx):
               "RegexBuilder::repeat no longer builds Repeat(node, min, max.unwrap_or(u32::MAX))", site=rr.where())
 
     # ------------------------------------------------------------------ R2 rule shapes
-    shapes = {"optional": [[], ["value"]], "one_or_more": [["elt"], ["p", "elt"]], "zero_or_more": [[], ["p", "elt"]]}
+    ELT = "param:2"
+    WRAP = "call:new_wrapper_node"
+    shapes = {"optional": [[], [ELT]], "one_or_more": [[ELT], [WRAP, ELT]], "zero_or_more": [[], [WRAP, ELT]]}
     for fn, want in shapes.items():
         b = ctx.body(GB + "::" + fn)
         nw = b.call_blocks(GB + "::new_wrapper_node")
@@ -202,16 +204,12 @@ def run(ctx):
             if t["f"].get("def") == GB + "::add_rule":
                 n = slice_len(b, t["args"][2])
                 el = slice_elems(b, t["args"][2]) if n else []
+                el = [WRAP if x.startswith(WRAP) else x for x in el] if el is not None else None
                 rules.append(el if el is not None else ["?"] * (n or 0))
-                lhs_ok = lhs_ok and L.named_source(b, t["args"][1]) == "p"
+                lhs_ok = lhs_ok and L.role(b, t["args"][1]).startswith(WRAP)
         ctx.check(rules == want and bool(nw) and lhs_ok, "C09-R2", "rule-shape:" + fn,
                   "%s adds exactly the rules p -> %s with p the fresh wrapper node" % (fn, want),
                   "GrammarBuilder::%s adds rules %s (expected %s): the admitted repetition counts change" % (fn, rules, want), site=b.where())
-        p_l = next((i for i, d in enumerate(b.locals) if d.get("n") == "p"), None)
-        if p_l is not None:
-            e = b.expr_place([p_l])
-            ctx.check(e[0] == "call" and e[1] == GB + "::new_wrapper_node", "C09-R2", "rule-shape:%s:p-is-fresh" % fn, "p = new_wrapper_node(..)",
-                      "in %s, p is %s" % (fn, F.fmt_expr(e)), site=b.where())
     rp = ctx.body(GB + "::repeat")
     calls = {k: rp.call_blocks(GB + "::" + k) for k in ("at_least", "repeat_exact", "at_most", "join")}
     g_none = L.guard_edges(rp, lambda e: e[0] == "call" and e[1].endswith("Option::<T>::is_none"), True)
@@ -219,7 +217,7 @@ def run(ctx):
     ctx.check(ok, "C09-R2", "repeat:none->at_least", "max == None dispatches to at_least(elt, min)", "repeat no longer maps an absent max to at_least", site=rp.where())
     if calls["at_least"]:
         t = rp.blocks[calls["at_least"][0]]["term"]
-        ctx.check(L.named_source(rp, t["args"][2]) == "min", "C09-R2", "repeat:at_least-arg", "at_least(elt, min)", "at_least receives %s" % L.named_source(rp, t["args"][2]), site=rp.where())
+        ctx.check(L.role(rp, t["args"][2]) == "param:3", "C09-R2", "repeat:at_least-arg", "at_least(elt, min)", "at_least receives %s" % L.role(rp, t["args"][2]), site=rp.where())
     le = L.guard_edges(rp, lambda e: e[0] == "bin" and e[1] == "Le", True)
     work = calls["repeat_exact"] + calls["at_most"]
     ctx.check(bool(le) and bool(work) and not L.dominated_by_cut(rp, work, le), "C09-R2", "repeat:asserts-min-le-max", "repeat asserts min <= max before the bounded cases",
@@ -235,28 +233,17 @@ def run(ctx):
     ok = len(gen_ex) == 1 and len(gen_am) == 1
     if ok:
         te, ta = rp.blocks[gen_ex[0]]["term"], rp.blocks[gen_am[0]]["term"]
-        d = rp.expr(ta["args"][2])
-        d = L.value_of(rp, d) if d[0] in ("place", "ref") else d
-
-        def nm(x):
-            x = L.strip_wrappers(x)
-            if x[0] in ("place", "ref") and len(x[1]) == 1:
-                return rp.local_name(x[1][0])
-            if x[0] == "local":
-                return rp.local_name(x[1])
-            if x[0] == "call" and x[1].endswith("::unwrap") and x[2]:
-                return nm(x[2][0])
-            return None
-
-        ok = L.named_source(rp, te["args"][2]) == "min" and d[0] == "bin" and d[1] == "Sub" and nm(d[2]) == "max" and nm(d[3]) == "min"
+        # min is parameter 3, max is parameter 4 (unwrapped)
+        rd = L.role(rp, ta["args"][2])
+        ok = L.role(rp, te["args"][2]) == "param:3" and rd.replace(" ", "").replace(").0", ")") == "(call:unwrap(param:4)Subparam:3)"
     ctx.check(ok, "C09-R2", "repeat:general-case", "general case = repeat_exact(elt, min) ++ at_most(elt, max - min)",
               "repeat's general case no longer combines repeat_exact(min) with at_most(max - min)", site=rp.where())
     al = ctx.body(GB + "::at_least")
     zs, ex, jn = al.call_blocks(GB + "::zero_or_more"), al.call_blocks(GB + "::repeat_exact"), al.call_blocks(GB + "::join")
     ok = len(zs) == 1 and len(ex) == 1 and len(jn) == 1
     if ok:
-        el = slice_elems(al, al.blocks[jn[0]]["term"]["args"][1])
-        ok = el == ["r", "z"] and L.named_source(al, al.blocks[ex[0]]["term"]["args"][2]) == "n"
+        el = slice_elems(al, al.blocks[jn[0]]["term"]["args"][1]) or []
+        ok = len(el) == 2 and el[0].startswith("call:repeat_exact(") and el[1].startswith("call:zero_or_more(") and L.role(al, al.blocks[ex[0]]["term"]["args"][2]) == "param:3"
     ctx.check(ok, "C09-R2", "at_least:shape", "at_least(elt, n) = join[repeat_exact(elt, n), zero_or_more(elt)]",
               "at_least no longer is repeat_exact(n) followed by zero_or_more", site=al.where())
 
@@ -351,6 +338,7 @@ def run(ctx):
     ok = False
     if bs:
         t = go.blocks[bs[0]]["term"]
-        ok = L.named_source(go, t["args"][2]) == "min_properties" and L.named_source(go, t["args"][3]) == "max_properties"
+        r2, r3 = L.role(go, t["args"][2]), L.role(go, t["args"][3])
+        ok = "min_properties" in r2 and "saturating_sub" in r2 and "max_properties" in r3 and "min_properties" not in r3
     ctx.check(ok, "C09-R3", "object:bounded_sequence-args", "bounded_sequence(pattern, min_properties, max_properties)",
               "gen_json_object passes its property-count bounds to bounded_sequence in a different order", site=go.where())
